@@ -1,6 +1,6 @@
 """check configuration for C09 (loaded by lib/zvprops.py)"""
 
-PROP = {'gen_tables': ['SyncFacts'],
+PROP = {'gen_tables': ['SyncFacts', 'Delegates'],
  'race': True,
  'rule': 'ops: generated multi-goroutine programs (2–8 goroutines × 3–40 actions, thorough ≤ 200) over the concurrent API surface (all log front '
          'ends incl. sugar/Check/slog, With/WithLazy/Named/WithOptions/Sugar/Desugar, Level, Sync, AtomicLevel get/set/text, ReplaceGlobals/L/S, '
